@@ -23,6 +23,9 @@ const TLV_PAYMENT_METADATA: u64 = 16;
 const TLV_TRAMPOLINE_INVOICE: u64 = 33001;
 const TLV_TRAMPOLINE_AMOUNT: u64 = 33003;
 
+/// Time between attempts to read the stored state of a payment.
+const FETCH_PAYMENT_INFO_RETRY_INTERVAL: Duration = Duration::from_secs(1);
+
 /// HtlcManager is the main handler for htlcs. It aggregates htlcs into payments
 /// based on the payment hash.
 pub struct HtlcManager<B, N, P, S>
@@ -439,17 +442,16 @@ async fn payment_lifecycle<B, N, P, S>(
     P: PaymentProvider,
     S: Datastore,
 {
-    let state = match params.store.fetch_payment_info(&trampoline).await {
-        Ok(state) => state,
-        Err(e) => {
-            error!("Failed to fetch payment info: {:?}", e);
-            resolve(
-                &payments,
-                &trampoline,
-                HtlcAcceptedResponse::temporary_node_failure(),
-            )
-            .await;
-            return;
+    // Without knowing the stored state it is unknown whether an outgoing
+    // payment is in flight or has even succeeded, so the htlcs can't be failed
+    // back safely. Keep trying to read it.
+    let state = loop {
+        match params.store.fetch_payment_info(&trampoline).await {
+            Ok(state) => break state,
+            Err(e) => {
+                error!("Failed to fetch payment info, retrying: {:?}", e);
+                tokio::time::sleep(FETCH_PAYMENT_INFO_RETRY_INTERVAL).await;
+            }
         }
     };
 
